@@ -36,6 +36,7 @@ MaxFail == Hdr.maxfail
 
 AccInit == [bad |-> {},          \* <<phase, op>> : the API answered badly (5xx / dropped connection)
             faults |-> {},       \* <<phase, op>> : an injected fault fired
+            efaults |-> {},      \* <<phase, op>> : ... that was an ERROR (an exception that is not a failed assertion of a check)
             rep |-> {},          \* <<phase, op, status>> : delivered ScenarioFinished
             pf |-> {},           \* <<phase, status, skipReason>> : delivered PhaseFinished
             nfe |-> {},          \* <<phase, op>> : delivered NonFatalError
@@ -108,7 +109,9 @@ Step ==
             /\ UNCHANGED mon
        [] x.e = "STOP" -> acc' = [acc EXCEPT !.stopped = TRUE] /\ UNCHANGED mon
        [] x.e = "CTRLC" -> acc' = [acc EXCEPT !.ctrlc = TRUE] /\ UNCHANGED mon
-       [] x.e = "FAULT" -> acc' = [acc EXCEPT !.faults = @ \cup {<<x.ph, x.op>>}] /\ UNCHANGED mon
+       [] x.e = "FAULT" -> acc' = [acc EXCEPT !.faults = @ \cup {<<x.ph, x.op>>},
+                                              !.efaults = IF x.exc # "AssertionError" /\ x.ph \in {2, 3, 4} /\ x.op # 0 THEN @ \cup {<<x.ph, x.op>>} ELSE @]
+                           /\ UNCHANGED mon
        [] x.e = "CRASH" -> acc' = [acc EXCEPT !.crashed = TRUE] /\ UNCHANGED mon
        [] x.e = "HANG" -> acc' = [acc EXCEPT !.hung = TRUE] /\ UNCHANGED mon
        [] x.e = "TDEATH" -> acc' = [acc EXCEPT !.faults = @ \cup {<<x.ph, 0>>}, !.deaths = @ + 1] /\ UNCHANGED mon
@@ -165,6 +168,10 @@ UnserializableReported == (AtEnd /\ ~Cut /\ ~Cli) =>
         (Enabled(ph) /\ \E x \in acc.pf : x[1] = ph /\ x[2] # "skip") =>
             (\E r \in acc.rep : r[1] = ph /\ r[2] = Hdr.weird[i] /\ IsBad(r[3])) /\ acc.exit # 0
 FailuresRecordedWithRequest == acc.badRecorded /\ acc.statlost = 0
+(* an internal ERROR (as opposed to a failed check) while testing an operation is itself reported - as a NonFatalError of that operation or
+   as the ERROR status of its scenario - also when a failed check of a later case decides the scenario's status *)
+ErrorsReported == (AtEnd /\ ~Cut /\ ~Cli) =>
+    \A p \in acc.efaults : (p \in acc.nfe) \/ (\E r \in acc.rep : r[1] = p[1] /\ r[2] = p[2] /\ r[3] = "error")
 ZeroMeansClean == (AtEnd /\ ~Cut /\ acc.exit = 0) =>
     /\ Problems = {} /\ acc.nfe = {}
     /\ (Cli \/ \A r \in acc.rep : ~IsBad(r[3]))
@@ -204,7 +211,7 @@ StepCountRespected == ~acc.stepsBad
    arrival times are taken by the API, the limiter works on send times) *)
 RateRespected == ~acc.rateBad
 
-AllOK == /\ ProtocolOK /\ EndProtocolOK /\ NoCrash /\ Terminates /\ NoProblemLost /\ CliExitCode /\ DeliveredFailureCounts /\ SchemaErrorsReported /\ UnserializableReported /\ FailuresRecordedWithRequest
+AllOK == /\ ProtocolOK /\ EndProtocolOK /\ NoCrash /\ Terminates /\ NoProblemLost /\ CliExitCode /\ DeliveredFailureCounts /\ SchemaErrorsReported /\ UnserializableReported /\ FailuresRecordedWithRequest /\ ErrorsReported
          /\ ZeroMeansClean /\ ExitCodeSet /\ TestedMeansSent /\ MaxExamplesRespected /\ MaxFailuresRespected /\ LaterPhasesSkipped
          /\ NoScenarioAfterStop /\ AtMostOneSendAfterStop /\ UniqueInputs /\ RateRespected /\ StepCountRespected
 
@@ -219,6 +226,7 @@ ViolatedClauses ==
     (IF ~SchemaErrorsReported THEN {"C05 SchemaErrorsReported"} ELSE {}) \cup
     (IF ~UnserializableReported THEN {"C05 UnserializableReported"} ELSE {}) \cup
     (IF ~FailuresRecordedWithRequest THEN {"C05 FailuresRecordedWithRequest"} ELSE {}) \cup
+    (IF ~ErrorsReported THEN {"C05 ErrorsReported"} ELSE {}) \cup
     (IF ~ZeroMeansClean THEN {"C05 ZeroMeansClean"} ELSE {}) \cup
     (IF ~ExitCodeSet THEN {"C05 ExitCodeSet"} ELSE {}) \cup
     (IF ~TestedMeansSent THEN {"C05 TestedMeansSent"} ELSE {}) \cup
